@@ -29,6 +29,7 @@ if COVERDIR:
     HARNESS = os.path.join(BIN, "harness_cov")
 
 ALLOWED_AXIOMS = {"propext", "Classical.choice", "Quot.sound"}
+LEANCHECK = {}   # module -> accepted by leanchecker (thorough tier)
 
 TRUSTED_BASE = [
     "Lean 4.33.0 kernel; axioms admitted in obligations: propext, Classical.choice, Quot.sound (audited by #print axioms on every run); finite certificates by `decide +kernel` (kernel evaluation, no native_decide)",
@@ -214,6 +215,17 @@ def grep_forbidden():
     return hits
 
 
+def leancheck(modules):
+    """thorough tier: the toolchain's independent re-checker replays the compiled declarations of the modules through
+    the kernel; returns {module: ok}"""
+    res = {}
+    for m in modules:
+        with Lock("lake"):
+            p = run(["lake", "env", "leanchecker", m], cwd=LEAN)
+        res[m] = p.returncode == 0
+    return res
+
+
 def audit(pid, theorems, imports=("ShipVerif",)):
     """#print axioms for every obligation; returns list of dicts {name, axioms, ok}"""
     d = workdir(pid)
@@ -227,6 +239,11 @@ def audit(pid, theorems, imports=("ShipVerif",)):
         p = run(["lake", "env", "lean", src], cwd=LEAN)
     out = p.stdout or ""
     res = []
+    if TIER == "thorough":
+        lc = leancheck([i for i in imports if i != "ShipVerif"])
+        LEANCHECK.update(lc)
+        if not all(lc.values()):
+            return [{"name": t, "axioms": None, "ok": False, "error": "leanchecker rejected " + ", ".join(k for k, v in lc.items() if not v)} for t in theorems]
     for t in theorems:
         m = re.search(r"'%s' depends on axioms: \[([^\]]*)\]" % re.escape(t), out.replace("\n", " "))
         if m:
@@ -287,6 +304,8 @@ class Result:
             "violations": len(self.violations),
             "known_findings_reproduced": self.known,
         }
+        if LEANCHECK:
+            ev["coverage"]["leanchecker"] = dict(LEANCHECK)
         with open(os.path.join(EVIDENCE, self.pid + ".json"), "w") as f:
             json.dump(ev, f, indent=1)
         for k in self.known:
